@@ -1870,7 +1870,12 @@ def _type_order(value: Any) -> str:
   elif isinstance(value, dict):
     type_order = 7
   else:
-    type_order = type(value).__qualname__
+    # Distinct classes may share a qualified name (e.g. classes created by a
+    # factory function). The identity of the class breaks the tie (NUL sorts
+    # before every character of a name), so that `lt` orders their instances
+    # instead of bouncing between `lt` and `sym_lt` forever.
+    cls = type(value)
+    type_order = f'{cls.__qualname__}\x00{id(cls)}'
   return str(type_order)
 
 
